@@ -11,12 +11,17 @@ use std::io::Write;
 
 /// raw deflate (window bits -15), what `no_header_decompress` inflates
 pub fn deflate_raw(data: &[u8]) -> Vec<u8> {
+    deflate_raw_level(data, 6)
+}
+
+/// raw deflate at a given level (0 = stored blocks only, 1 = fastest, 9 = best)
+pub fn deflate_raw_level(data: &[u8], level: i32) -> Vec<u8> {
     use libz_rs_sys::*;
     unsafe {
         let mut strm: z_stream = std::mem::MaybeUninit::zeroed().assume_init();
         let ret = deflateInit2_(
             &mut strm,
-            6,
+            level,
             Z_DEFLATED,
             -15,
             8,
@@ -41,6 +46,47 @@ pub fn deflate_raw(data: &[u8]) -> Vec<u8> {
 fn zblock(len: usize, seed: usize) -> String {
     let d = pattern(len, seed);
     format!("z{}_~{}.{}", hex(&deflate_raw(&d)), len, seed)
+}
+
+/// the largest compressed length a deflated block may have (32000 in the length word marks a raw block)
+const ZMAX: usize = 31999;
+
+/// A deflated block of pseudo-random content (`^len.seed.bits`, see `c03fs::noise`) whose compressed
+/// length is as close to `want` (≤ `ZMAX`) as the level allows and never above `ZMAX`.  Level 0 and
+/// `bits = 8` hit `want` exactly (a stored stream is 5 bytes longer than its content, `want` ≥ 6);
+/// otherwise the content length is estimated from `bits` and corrected a few times.
+fn znoise(want: usize, seed: usize, bits: usize, level: i32) -> String {
+    let want = want.clamp(6, ZMAX);
+    let mut n = if level == 0 { want - 5 } else { (want * 8 / bits).max(1) };
+    let mut best: Option<(usize, Vec<u8>)> = None;
+    for _ in 0..5 {
+        let c = deflate_raw_level(&noise(n, seed, bits), level);
+        let len = c.len();
+        if len <= ZMAX && best.as_ref().map_or(true, |(_, b)| want.abs_diff(len) < want.abs_diff(b.len())) {
+            best = Some((n, c));
+        }
+        // close enough (exact lengths are the business of level 0), unless the top of the range is wanted
+        if len == want || (len <= ZMAX && want < ZMAX - 100 && want.abs_diff(len) <= want / 100) {
+            break;
+        }
+        // proportional correction (the compressed length is close to linear in the content length)
+        let next = ((n as u64 * want as u64) / len.max(1) as u64) as usize;
+        let next = if next == n { if len > want { n - 1 } else { n + 1 } } else { next };
+        if next == 0 || next > (1 << 20) {
+            break;
+        }
+        n = next;
+    }
+    let (n, c) = best.unwrap_or_else(|| {
+        let n = 1000;
+        (n, deflate_raw_level(&noise(n, seed, bits), level))
+    });
+    format!("z{}_^{}.{}.{}", hex(&c), n, seed, bits)
+}
+
+/// compressible content of `len` bytes (pattern) deflated at `level`: a short stream for a long content
+fn zpattern(len: usize, seed: usize, level: i32) -> String {
+    format!("z{}_~{}.{}", hex(&deflate_raw_level(&pattern(len, seed), level)), len, seed)
 }
 
 fn target(pl: u16) -> String {
@@ -102,6 +148,24 @@ const FILES: [&str; 8] = [
 ];
 const DIRPATHS: [&str; 5] = ["d1/d2/x", "sqpack/ex2/y", "d0/z", "movie/ex1/m", "q"];
 
+/// Paths with bytes beyond letters / digits / `._-` (raw here, escaped in the case line:
+/// `c03fs::escape_path`): blanks in front of the first component, behind the file name, inside;
+/// other white space; punctuation; control characters.  A small pool, so that commands meet files
+/// of the start tree and of earlier commands.  No entry is a directory of another one or of `FILES`.
+const ODD_FILES: [&str; 20] = [
+    " f0", "f0 ", "f 0", " ", "d0/ f1 ", " d/f0", "d /f0", "d0/d 1/f2", "sqpack/ffxiv/x .bin", "movie/ffxiv/ f3.bk2",
+    "sqpack/ex1/ex1.ver ", "a+b=c,(d)'!@#$%&[]", "d0/f\t", "f\n", "\rf", "d0/.f", "d~/^{f};:`", "f%20", "d0/f\\g*?\"<>|", "\x01/\x7f",
+];
+const ODD_DIRPATHS: [&str; 8] = ["d1/ d2/x ", " q", "q ", "d 1/d+2", "sqpack/ex2 /y", "m\t/n\n", "(a)/[b]/{c}", "%/%25"];
+
+fn rand_file(rng: &mut Rng) -> String {
+    if rng.chance(1, 8) { escape_path(*rng.pick(&ODD_FILES)) } else { rng.pick(&FILES).to_string() }
+}
+
+fn rand_dirpath(rng: &mut Rng) -> String {
+    if rng.chance(1, 5) { escape_path(*rng.pick(&ODD_DIRPATHS)) } else { rng.pick(&DIRPATHS).to_string() }
+}
+
 /// expansions whose `sqpack/<folder>` certainly exists at this point of the sequence (DeleteData does
 /// not create it: the generator aims at well-formed sequences)
 fn initial_dirs(tree: &str) -> Vec<u16> {
@@ -113,6 +177,36 @@ fn initial_dirs(tree: &str) -> Vec<u16> {
     }
     v
 }
+
+/// compressed lengths at which something changes: the 128-byte padding of a block (`c + 143` rounded
+/// down to 128: c ≡ 112 / 113 mod 128), field widths, the size of the blocks the game writes (16000
+/// bytes of content, 16005 stored) and the raw-block marker 32000
+const ZLENS: [usize; 40] = [
+    6, 7, 111, 112, 113, 127, 128, 129, 240, 241, 255, 256, 257, 4095, 4096, 4097, 8191, 8192, 8193, 15984, 15985,
+    15999, 16000, 16001, 16004, 16005, 16006, 16383, 16384, 16385, 24000, 31856, 31857, 31871, 31872, 31873, 31990, 31997,
+    31998, 31999,
+];
+
+/// a deflated block of noise: compressed length mostly in the upper half of the legal range
+fn rand_znoise(rng: &mut Rng) -> String {
+    let want = match rng.below(8) {
+        0 => *rng.pick(&ZLENS),
+        1 => rng.range(6, 16000) as usize,
+        2 | 3 => rng.range(16000, 16400) as usize,
+        4 => rng.range(31000, ZMAX as u64) as usize,
+        _ => rng.range(16000, ZMAX as u64) as usize,
+    };
+    let level = *rng.pick(&[0, 0, 1, 6, 9]);
+    let bits = if level == 0 { 8 } else { *rng.pick(&[8usize, 8, 7, 6, 5, 4, 3, 2, 1]) };
+    // small alphabets mean long contents (up to 8 x the stream): the fast level for those
+    let level = if bits <= 3 { level.min(1) } else { level };
+    znoise(want, rng.below(1 << 16) as usize, bits, level)
+}
+
+/// one random AddFile block in `ZDEN` is a long deflated block (`rand_znoise`): set by `generate`
+/// (quick 64, thorough 400 — a long block costs ~60 KB of case text and a few deflate runs; the
+/// thorough tier has 60 times the sequences)
+static ZDEN: std::sync::atomic::AtomicU64 = std::sync::atomic::AtomicU64::new(64);
 
 fn rand_cmd(rng: &mut Rng, have: &mut Vec<u16>) -> String {
     let main = *rng.pick(&[0u16, 4, 4, 10, 19, 0x123, 0xffff]);
@@ -192,7 +286,10 @@ fn rand_cmd(rng: &mut Rng, have: &mut Vec<u16>) -> String {
                     3 => 16000,
                     _ => rng.range(100, 3000) as usize,
                 };
-                if rng.chance(1, 2) {
+                if rng.chance(1, ZDEN.load(std::sync::atomic::Ordering::Relaxed)) {
+                    // a deflated block anywhere in the legal range of compressed lengths
+                    bs.push(rand_znoise(rng));
+                } else if rng.chance(1, 2) {
                     bs.push(format!("r{}", rand_content(rng, n)));
                 } else {
                     bs.push(zblock(n, rng.below(256) as usize));
@@ -207,17 +304,17 @@ fn rand_cmd(rng: &mut Rng, have: &mut Vec<u16>) -> String {
                 "FA:{}:{}:{}:{}",
                 offset,
                 rng.below(3),
-                rng.pick(&FILES),
+                rand_file(rng),
                 if bs.is_empty() { "-".to_string() } else { bs.join(";") }
             )
         }
-        17 => format!("FD:{}:{}", rng.below(3), rng.pick(&FILES)),
+        17 => format!("FD:{}:{}", rng.below(3), rand_file(rng)),
         18 => {
             let e = rng.below(3) as u16;
             have.retain(|x| *x != e);
-            format!("FR:{}:{}", e, rng.pick(&FILES))
+            format!("FR:{}:{}", e, rand_file(rng))
         }
-        _ => format!("FM:{}:{}", rng.below(3), rng.pick(&DIRPATHS)),
+        _ => format!("FM:{}:{}", rng.below(3), rand_dirpath(rng)),
     }
 }
 
@@ -235,6 +332,15 @@ fn rand_tree(rng: &mut Rng) -> String {
     for d in ["sqpack/ffxiv/", "sqpack/ex1/", "sqpack/ex12/", "d9/"] {
         if rng.chance(1, 3) {
             es.push(d.to_string());
+        }
+    }
+    // one tree in three: a few files with odd names
+    if rng.chance(1, 3) {
+        for f in ODD_FILES.iter() {
+            if rng.chance(1, 5) {
+                let n = *rng.pick(&[1usize, 20, 129, 1000]);
+                es.push(format!("{}:{}", escape_path(f), rand_content(rng, n)));
+            }
         }
     }
     if es.is_empty() { "-".into() } else { es.join(";") }
@@ -258,8 +364,11 @@ fn api_of(rng: &mut Rng, tree: &mut String) -> &'static str {
 
 pub fn generate(thorough: bool, seed: u64, out: &mut dyn Write) {
     let mut rng = Rng::new(seed, "C03");
+    ZDEN.store(if thorough { 400 } else { 64 }, std::sync::atomic::Ordering::Relaxed);
     let al = alphabet();
     let t0 = target(0);
+    // file operations on paths with blanks, punctuation, control characters
+    generate_odd(thorough, seed, out);
     // bounded-exhaustive: all sequences of length <= 2 on every start tree, length 3 (quick) on one
     // start tree each / (thorough) on every start tree; every sequence starts with a TargetInfo
     for (ti, tree) in TREES.iter().enumerate() {
@@ -274,6 +383,14 @@ pub fn generate(thorough: bool, seed: u64, out: &mut dyn Write) {
             }
         }
     }
+    // deflated blocks over the whole legal range of compressed lengths, long contents: these cases
+    // are long (tens of KB); the check cuts the case list into contiguous shards, so they are spread
+    // evenly over the length-3 sequences instead of sitting together in one shard
+    let mut heavy_buf: Vec<u8> = vec![];
+    generate_zrange(thorough, seed, &mut heavy_buf);
+    let heavy_txt = String::from_utf8(heavy_buf).unwrap();
+    let mut heavy = heavy_txt.lines();
+    let stride = (al.len() * al.len() * al.len()) / heavy_txt.lines().count().max(1) + 1;
     let mut k = 0usize;
     for a in al.iter() {
         for b in al.iter() {
@@ -284,8 +401,16 @@ pub fn generate(thorough: bool, seed: u64, out: &mut dyn Write) {
                         writeln!(out, "apply api=zipatch tree={} cmds={},{},{},{}", tree, t0, a, b, c).unwrap();
                     }
                 }
+                if k % stride == 0 {
+                    if let Some(l) = heavy.next() {
+                        writeln!(out, "{}", l).unwrap();
+                    }
+                }
             }
         }
+    }
+    for l in heavy {
+        writeln!(out, "{}", l).unwrap();
     }
     if thorough {
         // length 4 over a 16-command sub-alphabet (at least one representative per command kind)
@@ -340,6 +465,154 @@ pub fn generate(thorough: bool, seed: u64, out: &mut dyn Write) {
     }
     // byte offsets of 2^32 and more (sparse files), last: they stay together in one shard
     generate_big(thorough, seed, out);
+}
+
+/// File operations whose paths contain bytes beyond letters / digits / `._-` — the quantifier is
+/// "ASCII relative paths".  Bounded-exhaustive: every sequence of length ≤ 2 over AddFile / DeleteFile /
+/// MakeDirTree / RemoveAll on every odd path of the pool, on the empty tree and on a tree that holds
+/// every odd file (quick: a third of the pairs, on one of the two trees each).
+fn generate_odd(thorough: bool, seed: u64, out: &mut dyn Write) {
+    let mut al: Vec<String> = vec![];
+    for (i, f) in ODD_FILES.iter().enumerate() {
+        let f = escape_path(f);
+        al.push(format!("FA:0:0:{}:r~{}.{}", f, 10 + i, i));
+        al.push(format!("FD:0:{}", f));
+        if i % 4 == 0 {
+            al.push(format!("FA:{}:0:{}:{};r~3.{}", 7 + i, f, zblock(200 + i, i), i));
+        }
+    }
+    for d in ODD_DIRPATHS.iter() {
+        al.push(format!("FM:0:{}", escape_path(d)));
+    }
+    al.push(format!("FR:0:{}", escape_path(ODD_FILES[0])));
+    let full: Vec<String> = ODD_FILES.iter().enumerate().map(|(i, f)| format!("{}:~{}.{}", escape_path(f), 30 + i, 50 + i)).collect();
+    let full = format!("{};sqpack/ffxiv/040000.win32.dat0:~300.20", full.join(";"));
+    let trees = ["-", full.as_str()];
+    let mut k = 0usize;
+    for a in al.iter() {
+        for tree in trees.iter() {
+            writeln!(out, "apply api=zipatch tree={} cmds={}", tree, a).unwrap();
+        }
+        for b in al.iter() {
+            k += 1;
+            for (ti, tree) in trees.iter().enumerate() {
+                if thorough || k % 6 == ti {
+                    writeln!(out, "apply api={} tree={} cmds={},{}", if k % 7 == 0 { "game" } else { "zipatch" }, tree, a, b).unwrap();
+                }
+            }
+        }
+    }
+}
+
+/// AddFile payloads the small patterns of the other families never produce: deflated blocks whose
+/// **compressed** length lies anywhere in the legal range 1..31999 (content deflate cannot shrink:
+/// `c03fs::noise`; level 0 = stored streams of an exact length, levels 1/6/9 = Huffman-coded ones),
+/// alone and among other blocks, and long **contents** that deflate to short streams (the other
+/// length word of the block header), plus raw blocks around the marker value.
+fn generate_zrange(thorough: bool, seed: u64, out: &mut dyn Write) {
+    let mut rng = Rng::new(seed, "C03z");
+    let t0 = target(0);
+    let apis = ["zipatch", "game", "zipatch", "boot"];
+    let mut k = 0usize;
+    let mut emit = |out: &mut dyn Write, k: &mut usize, tree: &str, cmds: String| {
+        let api = apis[*k % 4];
+        *k += 1;
+        let tree = match (api, tree) {
+            ("boot", "-") => "ffxivboot.ver:31".to_string(),
+            ("boot", t) => format!("{};ffxivboot.ver:31", t),
+            (_, t) => t.to_string(),
+        };
+        writeln!(out, "apply api={} tree={} cmds={}", api, tree, cmds).unwrap();
+    };
+    // every boundary length exactly (stored stream), as the only block of a new file / of a file
+    // that replaces an old one; thorough: also Huffman-coded streams near the same lengths
+    for (i, &c) in ZLENS.iter().enumerate() {
+        let f = FILES[i % 7];
+        let tree = if i % 2 == 0 { "-" } else { TREES[1] };
+        emit(out, &mut k, tree, format!("FA:0:0:{}:{}", f, znoise(c, i, 8, 0)));
+        if thorough {
+            for (level, bits) in [(1, 8usize), (9, 6), (6, 3)] {
+                emit(out, &mut k, tree, format!("FA:0:0:{}:{}", f, znoise(c, 100 + i, bits, level)));
+            }
+        }
+    }
+    // one past the legal range: a compressed length of 32000 *is* the raw marker, 32001 is a raw block
+    // too as far as the reader is concerned (outside WFseq: compared with the model only)
+    for c in [32000usize, 32001] {
+        let d = noise(c - 5, 7, 8);
+        emit(out, &mut k, "-", format!("FA:0:0:f1.bin:z{}_^{}.7.8", hex(&deflate_raw_level(&d, 0)), c - 5));
+    }
+    // Huffman-coded streams (levels 1 / 6 / 9, alphabets of 1..8 bits) across the range
+    let n = if thorough { 400 } else { 20 };
+    for i in 0..n {
+        let want = if i % 4 == 0 { rng.range(200, 16000) } else { rng.range(16000, ZMAX as u64) } as usize;
+        let bits = [7usize, 6, 4, 8, 5, 2, 3, 1][i % 8];
+        let level = if bits <= 3 && !thorough { 1 } else { [1, 9, 6][i % 3] };
+        let off = if i % 5 == 4 { rng.range(1, 3000) } else { 0 };
+        let tree = if i % 3 == 0 { TREES[1] } else { "-" };
+        emit(out, &mut k, tree, format!("FA:{}:{}:{}:{}", off, rng.below(3), rng.pick(&FILES), znoise(want, rng.below(1 << 16) as usize, bits, level)));
+    }
+    // several blocks in one file: the game's own shape (16000 bytes of content per block, the last one
+    // shorter; incompressible content is stored: 16005 bytes) and random mixtures of long deflated,
+    // short deflated and raw blocks, at offset 0 and inside / behind an old file
+    let game_shape = |seedb: usize, blocks: usize, last: usize, level: i32| -> String {
+        let mut bs: Vec<String> = (0..blocks).map(|j| znoise(16005, seedb + j, 8, level)).collect();
+        bs.push(format!("z{}_^{}.{}.8", hex(&deflate_raw_level(&noise(last, seedb + 99, 8), level)), last, seedb + 99));
+        bs.join(";")
+    };
+    emit(out, &mut k, "-", format!("FA:0:0:movie/ffxiv/f3.bk2:{}", game_shape(1, 2, 77, 0)));
+    emit(out, &mut k, TREES[1], format!("{},FA:0:1:sqpack/ex1/ex1.ver:{}", t0, game_shape(2, 1, 15999, 9)));
+    emit(out, &mut k, TREES[1], format!("FA:25:0:d0/f0:{}", game_shape(3, 1, 1, 1)));
+    let n = if thorough { 300 } else { 12 };
+    for _ in 0..n {
+        let nb = rng.range(2, 5);
+        let mut bs: Vec<String> = vec![];
+        for j in 0..nb {
+            bs.push(match rng.below(if j == 0 { 2 } else { 6 }) {
+                0 | 1 | 2 => rand_znoise(&mut rng),
+                3 => {
+                    let n = *rng.pick(&[1usize, 113, 128, 3000, 16000]);
+                    format!("r{}", rand_content(&mut rng, n))
+                }
+                4 => zblock(rng.range(1, 3000) as usize, rng.below(256) as usize),
+                _ => format!("r^{}.{}.8", rng.range(1, 20000), rng.below(256)),
+            });
+        }
+        // the blocks in a random order (the long one is not always first)
+        for i in (1..bs.len()).rev() {
+            let j = rng.below(i as u64 + 1) as usize;
+            bs.swap(i, j);
+        }
+        let off = match rng.below(3) {
+            0 => rng.range(1, 5000),
+            _ => 0,
+        };
+        let tree = if rng.chance(1, 2) { rand_tree(&mut rng) } else { "-".to_string() };
+        let mut cs = vec![t0.clone()];
+        if rng.chance(1, 2) {
+            let mut have = initial_dirs(&tree);
+            cs.push(rand_cmd(&mut rng, &mut have));
+        }
+        cs.push(format!("FA:{}:{}:{}:{}", off, rng.below(3), rng.pick(&FILES), bs.join(";")));
+        if rng.chance(1, 2) {
+            // a second file operation behind it: the reader must be positioned exactly after the blocks
+            cs.push(format!("FA:0:0:{}:r{}", rng.pick(&FILES), rand_content(&mut rng, 40)));
+        }
+        emit(out, &mut k, &tree, cs.join(","));
+    }
+    // the other length word: long contents, short streams (up to the reader's limit of 1 MiB; one
+    // byte more is outside WFseq), and raw blocks around the marker value / the next field widths
+    let mut dl: Vec<usize> = vec![15999, 16000, 16001, 31999, 32000, 32001, 65535, 65536, 65537, 1 << 20, (1 << 20) + 1];
+    if thorough {
+        dl.extend_from_slice(&[(1 << 20) - 1, 1 << 19, 100_000, 262_144, 1_000_000]);
+    }
+    for (i, d) in dl.iter().enumerate() {
+        let level = [6, 1, 9][i % 3];
+        emit(out, &mut k, if i % 2 == 0 { "-" } else { TREES[1] }, format!("FA:0:0:{}:{};r~5.1", FILES[i % 7], zpattern(*d, i, level)));
+    }
+    for (i, d) in [31999usize, 32000, 32001, 65535, 65536, 65537].iter().enumerate() {
+        emit(out, &mut k, "-", format!("FA:0:0:{}:r^{}.{}.8;{}", FILES[i % 7], d, i, zblock(300, i)));
+    }
 }
 
 pub fn run(case: &str, input: &str) -> String {
